@@ -51,7 +51,7 @@ class Ob:
     def __init__(self, name, harness, entry, props, defines=(), cbmc=(), backend="sat",
                  timeout=600, mem_gb=6, witness=True, ub=False, extra_src=(), functions=(),
                  bounds="", assumptions=(), outside=(), unwind_is_violation=False,
-                 nowitness_reason="", object_bits=None, describe="", ignore_unwind=(), post=None, shrink=None, witness_mode="all", remove_bodies=(), witnesses=None):
+                 nowitness_reason="", object_bits=None, describe="", ignore_unwind=(), post=None, shrink=None, witness_mode="all", remove_bodies=(), witnesses=None, static_unwind=()):
         self.name = name
         self.harness = harness
         self.entry = entry
@@ -74,6 +74,7 @@ class Ob:
         self.describe = describe
         self.ignore_unwind = list(ignore_unwind)   # unwinding assertions justified by a lemma obligation instead
         self.post = post
+        self.static_unwind = list(static_unwind)   # loops unwound statically by goto-instrument (with unwinding assertions) before cbmc
         self.witnesses = list(witnesses) if witnesses else None   # if given: exactly these WITNESS points must be reachable (others belong to other entry points)
         self.remove_bodies = list(remove_bodies)  # functions cut with goto-instrument --remove-function-body (CBMC build only)
         self.witness_mode = witness_mode  # all: every WITNESS point must be reachable; any: at least one (case-split obligations)
@@ -229,6 +230,15 @@ def compile_goto(ob, scratch, witness):
                 pass
     if rc != 0:
         return None, o
+    if ob.static_unwind:
+        # CBMC's dynamic unwinding counters are per frame, not per path: for a backward goto that encloses other loops
+        # (scan()'s `goto again`) later traversals would be cut silently.  Unwinding that loop statically gives every
+        # traversal its own copy; the inserted unwinding assertion is then a normal proof obligation.
+        out3 = out[:-3] + "-su.gb"
+        rc, o3, _, _ = run(["goto-instrument", "--unwindset", ",".join(ob.static_unwind), "--unwinding-assertions", out, out3], 300, 4, cwd=scratch)
+        if rc != 0 or not os.path.exists(out3):
+            return None, o3
+        os.replace(out3, out)
     if ob.remove_bodies:
         out2 = out[:-3] + "-cut.gb"
         cmd = ["goto-instrument"]
